@@ -320,8 +320,12 @@ func (c *channel) reconnect(maxRetries float64) {
 			return
 		}
 		c.streamCtx, c.cancelStream = context.WithCancel(c.parentCtx)
-		c.gorumsStream, err = c.gorumsClient.NodeStream(c.streamCtx)
+		// keep the old (broken) stream if no new one can be created: the receiver
+		// may still call RecvMsg on c.gorumsStream, which must never be nil.
+		var stream ordering.Gorums_NodeStreamClient
+		stream, err = c.gorumsClient.NodeStream(c.streamCtx)
 		if err == nil {
+			c.gorumsStream = stream
 			c.streamBroken.clear()
 			c.streamMut.Unlock()
 			return
